@@ -367,6 +367,11 @@ def run(chk):
     n_str = len(srcs)
     # unsupported constructs and the recorded finding
     unsup = ["match x { case 1: 2 }", "b'ab'", "f'{x}'", "x + b'a'", "[1, match x { case _: 2 }]", "f(f'{x}')"]
+    for pad in range(0, 48):
+        unsup.append("x == f'%s\u00e9 {y}'" % ("a" * pad))
+        if pad % 4 == 0:
+            unsup += ["f'%s\U0001F600{y}\u20ac'" % ("b" * pad), "[1, f'%s\u00e9\u00e9{y}']" % ("c" * pad), "x + b'%s\u00e9'" % ("d" * pad),
+                      "match x { case 1: '%s\u00e9\u20ac' }" % ("e" * pad)]
     known = [("double-negation-is-sql-comment", "--x"), ("double-negation-is-sql-comment", "a + --b"),
              ("double-negation-is-sql-comment", "- - x")]
     cases = ["tosql " + hx(s) for s in srcs + unsup + [s for _, s in known]]
